@@ -14,6 +14,7 @@ import (
 	"strconv"
 	"strings"
 	"time"
+	"verif/harness/internal/script"
 
 	"github.com/cosmos/cosmos-sdk/crypto/keys/secp256k1"
 	sdk "github.com/cosmos/cosmos-sdk/types"
@@ -494,7 +495,7 @@ func parseRequest(line string) (thunk, error) {
 		if err != nil {
 			return nil, err
 		}
-		denom := strTok(f[1])
+		denom := script.Untok(f[1]) // `~` = blank, `^` = tab
 		return func() string {
 			return okErr(enttypes.NewParams(denom, minAcc, limit, signers).Validate())
 		}, nil
@@ -511,7 +512,7 @@ func parseRequest(line string) (thunk, error) {
 			}
 			u[k] = v
 		}
-		denom := strTok(f[2])
+		denom := script.Untok(f[2]) // `~` = blank, `^` = tab
 		switch f[1] {
 		case "wrk":
 			return func() string {
